@@ -297,12 +297,19 @@ Definition constraint_f1 (c : fconstraint) : bool :=
     (* no window without a variable: EQ on no variables raises *)
     forallb (fun r => match trials_of f (fst r) (snd r) with [] => false | _ => true end) (windows_of wb)
   | FExclude f l => isact f && (l <? nlevels fb f) && stride1 f
-  | FPin _ f l wb => isact f && negb (is_complex fb f) && (l <? nlevels fb f) && geom_ok wb && (geometry_sustain fb wb f =? 1)
+  | FPin i f l wb =>
+    isact f && (l <? nlevels fb f) && (0 <? variables_per_sample fb) && geom_ok wb && (0 <? geometry_sustain fb wb f) &&
+    (* every pinned trial is a trial of the block *)
+    match get_trial_numbers fb f i wb with
+    | Some ps => forallb (fun p => p <? fl_trials fb) ps
+    | None => false
+    end
   | FAtLeast k f l wb | FExactlyKInARow k f l wb =>
     (0 <? k) && isact f && (l <? nlevels fb f) && geom_ok wb && stride1 f
   | FSequential f =>
-    isact f && negb (is_complex fb f) && (sustain_of fb f =? 1) &&
-    match factor_preamble_size fb f with COk 0 => true | _ => false end
+    isact f && negb (is_complex fb f) &&
+    (* the preamble is a whole number of sustain groups *)
+    match factor_preamble_size fb f with COk p => p mod sustain_of fb f =? 0 | CErr _ => false end
   | _ => false
   end.
 
